@@ -1,3 +1,24 @@
-"""Claimed evidence level per property (mirrors MANIFEST.json) and a one-line explanation."""
-LEVELS = {k: "proof" for k in ("C18", "C06", "C13", "C15", "C16", "C17", "C12", "C14")}
+"""Claimed evidence level per property (mirrors MANIFEST.json)."""
+LEVELS = {
+ "C01": "exploration",
+ "C02": "other",
+ "C03": "exploration",
+ "C04": "exploration",
+ "C05": "exploration",
+ "C06": "other",
+ "C07": "exploration",
+ "C08": "exploration",
+ "C09": "exploration",
+ "C10": "exploration",
+ "C11": "exploration",
+ "C12": "proof",
+ "C13": "proof",
+ "C14": "proof",
+ "C15": "proof",
+ "C16": "proof",
+ "C17": "proof",
+ "C18": "proof",
+ "C19": "exploration",
+ "C20": "exploration"
+}
 EXPLAIN = {}
